@@ -10,6 +10,14 @@ def run(rep, tier, seed):
     feed(rep, linalg_checks.c07_all, 7000 + seed, tier, 'linear algebra table',
          'dot over every rank combination (1-D/2-D/N-D) and operand kind (UTPM,UTPM / UTPM,ndarray / ndarray,UTPM), outer (equal and different lengths), inv, solve (vector and multi-column right-hand sides, constant operands, base matrices that need row pivoting), det (Leibniz expansion in independent truncated arithmetic), logdet, trace, expm inside the Pade range (against the exponential series propagated in independent arithmetic); residuals A inv(A) = I and A X = B formed by bounded/polyarith.py, different base matrices per direction; higher coefficients dense, linear-only (A_0 + t A_1), with a gap (A_1 = 0) and constant',
          'sizes <= 3, D <= 5, P <= 3', lambda c: ('linalg:%s' % c['fn'], str(c.get('kinds', '')) + str(c.get('shapes', c.get('n', '')))))
+    import random
+    from bounded import misc_checks
+    m = 0; keys = set(); s3 = []
+    for case, fail in misc_checks.dot_mixed_kinds(random.Random(7100 + seed), tier):
+        m += 1; keys.add((case['kinds'], str(case['shapes']), case['D'], case['P']))
+        if len(s3) < 2: s3.append(case)
+        if fail: rep.violation('dot[%s]' % case['kinds'], str(case['shapes']), '%s: %s' % (case, fail), {'kind': 'dot with a constant operand', 'case': case, 'failure': fail})
+    rep.add_bounded('dot with a plain-array operand, ranks 1..3', m, len(keys), 'dot(ndarray, UTPM) and dot(UTPM, ndarray) for operand ranks 1..3 (N-D right operands included): every coefficient slice equals numpy.dot with the constant', s3, 'D<=3, P<=2, rank<=3')
     from .opbased import integer_part
     integer_part(rep, 'C07', tier, seed, ('linalg',))
     rep.assume(*[ASSUME[k] for k in ('A3', 'A5', 'A6', 'A8', 'A9', 'A11')], 'approximation error of the Pade approximant in expm is outside this family (only the propagation of the Taylor coefficients through it is checked)')
